@@ -57,7 +57,16 @@ def staged_call(variant):
                 bk['min_n_cycles'] = tk.get('min_n_cycles', 3)
             else:
                 tk['min_n_cycles'] = bk['min_n_cycles']
-        bf = compute_burst_features(shp, sig, burst_method=method, burst_kwargs=bk if method == 'amp' else None)
+        if method == 'amp' and (variant // 2) % 2 == 1:
+            # the secondary public function called directly, its options given as keywords
+            from bycycle.features.burst import compute_burst_fraction
+            bf = pd.DataFrame({'burst_fraction': compute_burst_fraction(shp, sig, fs, f_range, **{k_: v_ for k_, v_ in bk.items() if k_ not in ('fs', 'f_range')})})
+        elif method == 'cycles' and (variant // 2) % 2 == 1:
+            from bycycle.features.burst import compute_amp_fraction, compute_amp_consistency, compute_period_consistency, compute_monotonicity
+            bf = pd.DataFrame({'amp_fraction': np.asarray(compute_amp_fraction(shp)), 'amp_consistency': np.asarray(compute_amp_consistency(shp, 'both')),
+                               'period_consistency': np.asarray(compute_period_consistency(shp, direction='both')), 'monotonicity': np.asarray(compute_monotonicity(shp, sig))})
+        else:
+            bf = compute_burst_features(shp, sig, burst_method=method, burst_kwargs=bk if method == 'amp' else None)
         if len(bf) != len(shp):
             raise AssertionError('compute_burst_features returned %d rows for %d cycles' % (len(bf), len(shp)))
         df = pd.concat((bf.reset_index(drop=True), shp.reset_index(drop=True)), axis=1).set_axis(shp.index, axis=0)     # positional, labels kept
